@@ -323,6 +323,24 @@ def scaling_input(kind: str, k: int) -> bytes:
                 jwire.mkrow("triple", {"s": ("bnode", "a"), "p": ("bnode", "b"),
                                        "o": ("literal", "7" * k, None, 1)})]
         return jwire.write_delimited([jwire.enc_frame(rows)])
+    if kind == "combining-marks":
+        # one literal with 2k combining marks in non-canonical order (normalising text must not be
+        # quadratic in the length of such a run)
+        rows = [orow, jwire.mkrow("triple", {"s": ("bnode", "a"), "p": ("bnode", "b"),
+                                             "o": ("literal", "a" + "\u0301\u0323" * k, None, None)})]
+        return jwire.write_delimited([jwire.enc_frame(rows)])
+    if kind == "ns-then-frames":
+        # k namespace declarations in the first frame, then k tiny frames
+        o = jwire.mkrow("options", {**opts, "version": 2, "max_prefix_table_size": 8})
+        rows = [o, jwire.mkrow("prefix", {"id": 1, "value": "http://n/"})]
+        for i in range(k):
+            rows.append(jwire.mkrow("name", {"id": (i % 8) + 1, "value": f"ns{i}#"}))
+            rows.append(jwire.mkrow("namespace", {"name": f"p{i}", "iri": ("iri", 1, (i % 8) + 1)}))
+        rows.append(full)
+        frames = [jwire.enc_frame(rows)]
+        frames += [jwire.enc_frame([jwire.mkrow("triple", {"o": ("literal", str(i), None, None)})])
+                   for i in range(k)]
+        return jwire.write_delimited(frames)
     if kind == "repeated-quoted":
         # one large quoted triple as subject (balanced nesting, about k triples in it), then k
         # rows that repeat subject and predicate: work must be rows + size, not rows x size
@@ -353,7 +371,7 @@ def scaling_input(kind: str, k: int) -> bytes:
 
 SCALING = (("rows-per-frame", 50_000), ("frames", 20_000), ("entries", 50_000),
            ("distinct-statements", 20_000), ("integer-digits", 200_000), ("decimal-digits", 200_000),
-           ("repeated-quoted", 2_000))
+           ("repeated-quoted", 2_000), ("combining-marks", 8_000), ("ns-then-frames", 150))
 # (size multiplier, ratio above which growth counts as super-linear, items expected per unit)
 SCALING_STEP = {"integer-digits": (16, 24.0), "decimal-digits": (16, 24.0)}
 
@@ -367,6 +385,8 @@ def count_items(api: str, reader: str, data: bytes):
 
             if reader == "flat":
                 n = sum(1 for _ in gp.parse_jelly_flat(io.BytesIO(data)))
+            elif reader == "grouped":
+                n = sum(len(list(s)) for s in gp.parse_jelly_grouped(io.BytesIO(data)))
             else:
                 n = sum(1 for _ in gp.parse_jelly_to_graph(io.BytesIO(data)))
         else:
@@ -374,6 +394,8 @@ def count_items(api: str, reader: str, data: bytes):
 
             if reader == "flat":
                 n = sum(1 for _ in rp.parse_jelly_flat(io.BytesIO(data)))
+            elif reader == "grouped":
+                n = sum(len(g) for g in rp.parse_jelly_grouped(io.BytesIO(data)))
             else:
                 n = len(rp.parse_jelly_to_graph(io.BytesIO(data)))
     except Exception as e:  # noqa: BLE001
@@ -387,18 +409,20 @@ def scaling_shard(job) -> dict:
     kind, k, thorough = job
     acc = pool.Acc()
     for api, reader in (("generic", "flat"), ("rdflib", "flat"), ("generic", "to_graph"),
-                        ("rdflib", "to_graph")):
+                        ("rdflib", "to_graph"), ("generic", "grouped"), ("rdflib", "grouped")):
+        if reader == "grouped" and kind not in ("ns-then-frames", "frames"):
+            continue
         if kind == "repeated-quoted" and api == "rdflib":
             continue  # (quoted triples are not RDF 1.1)
         times = []
         step, limit = SCALING_STEP.get(kind, (4, 9.0))
-        single = kind in SCALING_STEP or kind == "entries"  # (one statement whatever the size)
+        single = kind in SCALING_STEP or kind in ("entries", "combining-marks")  # (one statement)
         for mult in (1, step):
             data = scaling_input(kind, k * mult)
             t0 = time.process_time()
             items, exc = count_items(api, reader, data)
             times.append(time.process_time() - t0)
-            if exc is not None or len(items) < (1 if single or reader == "to_graph" else k * mult):
+            if exc is not None or len(items) < (1 if single or reader != "flat" else k * mult):
                 acc.extra["harness"] = f"scaling input {kind} x{mult} not parsed: {exc} {len(items)}"
         acc.evals += 1
         acc.nontrivial += 1
